@@ -44,6 +44,12 @@ func Suspects(g *Gen) (early, lateIn []Input) {
 	r2 := reg()
 	r2["size"], r2["chunkSize"] = num("1099511627776"), num("1099511627776")
 	add("huge-chunksize-2^40", g.blobInput(gz, "", toc(E("d/", "dir"), r2)))
+	// negative chunkOffset on a single-chunk file: file.ReadAt's expectedSize wraps around to exactly
+	// len(p), the validation of 42545b8 passes and ip[lower:chunkSize-upper] has bounds near +-2^63
+	// (Lean: SV.Props.C04.read_arith_total_full_fails)
+	zeros100 := "sha256:cd00e292c5970d3c5e2f0ffa5171e555bc46bfc4faddfb4a418b6840b86e79a3"
+	add("negative-chunkoffset-wrap", g.blobInput(gz, "", toc(E("d/", "dir"),
+		E("d/w", "reg", "size", 100, "offset", reg()["offset"], "chunkOffset", num("-9223372036854775798"), "digest", zeros100, "chunkDigest", zeros100))))
 	// chunkOffset+chunkSize overflow
 	r3 := reg()
 	addLate("chunk-offset-plus-size-overflow", g.blobInput(gz, "", toc(E("d/", "dir"), r3,
